@@ -213,14 +213,18 @@ def Heap.attach (h : Heap F D Mat Vec) (s i : Nat) : Heap F D Mat Vec :=
     data := upd h.data o.data { h.data o.data with orb := h.norb } }
 
 /-- `sv_s.frame = g`: the state is re-expressed, then an attached covariance tagged with the frame
-the state had follows (when that assignment raises, the state has already moved) -/
+the state had follows; when that assignment raises, the state is put back where it was (since /repo
+45ca5d0) and nothing has changed -/
 def Heap.svHop (E : HEnv F D Mat Vec) (h : Heap F D Mat Vec) (s : Nat) (g : F) : Heap F D Mat Vec :=
   let v := h.sv s
   let h1 : Heap F D Mat Vec :=
     if g ≠ v.frame then { h with sv := upd h.sv s { v with frame := g, x := E.base.apply (E.convAt v.date v.frame g) v.x } } else h
   match v.cov with
   | none => h1
-  | some i => if (h1.view E i).tag = .frame v.frame then h1.hop E i (.frame g) else h1
+  | some i =>
+    if (h1.view E i).tag = .frame v.frame then
+      (if hopOk (h1.view E i) (.frame g) then h1.hop E i (.frame g) else h)
+    else h1
 
 /-- the assignment inside `svHop` raised -/
 def Heap.svHopOk (E : HEnv F D Mat Vec) (h : Heap F D Mat Vec) (s : Nat) (g : F) : Bool :=
